@@ -359,3 +359,41 @@ pub(crate) fn exists_subquery_has_rows<S: GraphSnapshot>(
         None => Ok(false),
     }
 }
+
+/// Verification hooks (add-only, compiled only with `--cfg nervusdb_verif`): read-only views used
+/// by the correspondence harness of the operator model.
+#[cfg(nervusdb_verif)]
+impl Params {
+    /// Rows counted so far by `note_emitted_row` in the current execution.
+    pub fn verif_emitted_rows(&self) -> usize {
+        self.runtime
+            .state
+            .lock()
+            .map(|state| state.emitted_rows)
+            .unwrap_or(0)
+    }
+}
+
+#[cfg(nervusdb_verif)]
+impl PreparedQuery {
+    /// The compiled plan.
+    pub fn verif_plan(&self) -> &Plan {
+        &self.plan
+    }
+}
+
+/// The plan `exists_subquery_has_rows` compiles for an `EXISTS { subquery }` (the outer row is the
+/// single row of the `Values` leaf).
+#[cfg(nervusdb_verif)]
+pub fn verif_compile_exists_subquery(subquery: &Query) -> Result<Plan> {
+    let mut merge_subclauses = VecDeque::new();
+    let compiled = compile_m3_plan(
+        subquery.clone(),
+        &mut merge_subclauses,
+        Some(Plan::Values {
+            rows: vec![Row::default()],
+        }),
+    )?;
+    Ok(compiled.plan)
+}
+
